@@ -364,8 +364,8 @@ func TestC03_Sweep(t *testing.T) {
 			if len(ns) > 40 { // lists are expensive: boundaries only
 				ns = nil
 				seen := map[int64]bool{}
-				for _, x := range []int64{lb, lb + 1, 2, 3, 15, 16, 17, 63, 64, 127, 128, 129, 255, 256, 257, 300, ub - 1, ub} {
-					if x >= lb && x <= ub && x <= 2048 && !seen[x] {
+				for _, x := range []int64{lb, lb + 1, 2, 3, 15, 16, 17, 63, 64, 127, 128, 129, 255, 256, 257, 300, 1023, 1024, 1025, 2047, 2048, 2049, 4097, ub - 1, ub} {
+					if x >= lb && x <= ub && x <= 4100 && !seen[x] {
 						seen[x] = true
 						ns = append(ns, x)
 					}
